@@ -305,8 +305,16 @@ def run_case(case, seed, c, st):
         ref = [_spec(np.array(ph.get_dynamical_matrix_at_q(q))) for q in qsc]
         try:
             for s_, t_ in itertools.product((0.5, 2.0, 3.7), repeat=2):
-                ph.masses = m0 * t_
+                # force constants first, a query, then the masses: later queries must see the new masses on every path
                 ph.force_constants = fc * s_
+                ph.run_qpoints(qsc)
+                ph.masses = m0 * t_
+                ph.run_qpoints(qsc, with_dynamical_matrices=True)
+                Dq_ = ph.get_qpoints_dict()["dynamical_matrices"]
+                for k_, r0 in enumerate(ref):
+                    e = np.abs(_spec(np.array(Dq_[k_])) - r0 * (s_ / t_)).max() / (scale * s_ / t_)
+                    if e > TOL:
+                        return fail("scaling/run_qpoints-after-masses", "after force constants, a query and then masses*=t, run_qpoints still uses the old masses: eigenvalues off (s/t) by %.3g (s=%g,t=%g)" % (e, s_, t_), e)
                 for q, r0 in zip(qsc, ref):
                     s1 = _spec(np.array(ph.get_dynamical_matrix_at_q(q)))
                     trans[0] += 1
